@@ -224,16 +224,29 @@ TraceNext ==
 TraceSpec == TraceInit /\ [][TraceNext]_tvars
 
 (***************************************************************************)
-(* Acceptance bookkeeping (-workers 1): register 1 = set of fully consumed *)
-(* trace ids, register 2 = furthest event reached per trace.               *)
+(* Verdict bookkeeping (-workers 1).  Register 2 = furthest event reached   *)
+(* per trace, register 3 = first violated invariant per trace (position and *)
+(* name).  The invariants are evaluated here, in every state of every       *)
+(* trace, instead of as TLC INVARIANTs, so that one violating trace does    *)
+(* not hide the verdicts of the others; a trace is not explored past a      *)
+(* violating state.                                                         *)
 (***************************************************************************)
-ASSUME TLCSet(1, {}) /\ TLCSet(2, [t \in 1..NT |-> 0])
+InvTable == << <<"TypeOK", TypeOK>>, <<"Serializable", Serializable>>, <<"LinearChain", LinearChain>>,
+               <<"AckedOnce", AckedOnce>>, <<"NoDoubleCommit", NoDoubleCommit>>,
+               <<"ReachablePresent", ReachablePresent>>, <<"FlipReplacesValidated", FlipReplacesValidated>>,
+               <<"NoLiveDelete", NoLiveDelete>>, <<"ReadIsSnapshot", ReadIsSnapshot>>, <<"ReadsMonotone", ReadsMonotone>> >>
+ViolatedNow == {i \in 1..Len(InvTable) : ~InvTable[i][2]}
+
+ASSUME TLCSet(2, [t \in 1..NT |-> 0]) /\ TLCSet(3, [t \in 1..NT |-> <<0, "">>])
 
 Progress ==
   /\ TLCSet(2, [TLCGet(2) EXCEPT ![tid] = IF l > @ THEN l ELSE @])
-  /\ (l = Len(Evs) + 1) => TLCSet(1, TLCGet(1) \cup {tid})
+  /\ IF ViolatedNow # {} /\ TLCGet(3)[tid][1] = 0
+     THEN TLCSet(3, [TLCGet(3) EXCEPT ![tid] = <<l, InvTable[CHOOSE i \in ViolatedNow : TRUE][1]>>])
+     ELSE TRUE
+  /\ ViolatedNow = {}
 
-AllAccepted ==
+Verdicts ==
   /\ PrintT(<<"REACHED", TLCGet(2)>>)
-  /\ TLCGet(1) = 1..NT
+  /\ PrintT(<<"VIOLATED", TLCGet(3)>>)
 =============================================================================
